@@ -257,6 +257,17 @@ def readdir_scenarios(rng, tier, exe, wd, exe_be=None):
         for _ in range(10 if tier == "quick" else 30):
             calls.append({"call": "readdir", "abi": lrng.choice("pu"), "fd": 4, "buflen": lrng.choice([24, 25, 30, 47, 48, 49, 64, 100, 256, 4096]),
                           "cookie": lrng.choice([0, 0] + cookies) if cookies else 0})
+        # ... and a listing that goes on while the guest removes what it has seen (a recursive removal): the entry seen last and the one that
+        # would come next are removed, the listing is resumed from the last cookie
+        real = [(i_, e_) for i_, e_ in enumerate(first["recs"]) if bytes(e_["name"]) not in (b".", b"..")]
+        if len(real) >= 4 and j % 2 == 0:
+            i_ = lrng.randrange(1, len(first["recs"]) - 1)
+            victims = [e_ for e_ in first["recs"][i_:i_ + 2] if bytes(e_["name"]) not in (b".", b"..")]
+            for e_ in victims:
+                nm_ = "dd/" + bytes(e_["name"]).decode("latin1")
+                calls.append({"call": "rmdir" if e_["type"] == 3 else "unlink", "abi": "p", "dirfd": 3, "path": nm_, "rawpath": nm_, "parent": "dd"})
+            calls.append({"call": "readdir", "abi": lrng.choice("pu"), "fd": 4, "buflen": 16384, "cookie": first["recs"][i_]["next_full"],
+                          "removed": [list(e_["name"]) for e_ in victims]})
         recs, index, err, rc, sb = wasi.run_history(exe, calls, wd, "rd%d" % j, setup=setup, ls_after=("open",))
         return j, calls, recs, err
     out = pmap(run_plan, plans)
@@ -373,6 +384,9 @@ def main():
             line = 3
             stream = None
             for c in calls[1:]:
+                if c["call"] != "readdir":
+                    line += 1          # (the removals between two listing calls)
+                    continue
                 d = parse_dirents(by_i.get(line), ORDER.get(j, "little"))
                 line += 1
                 if d is None:
@@ -381,13 +395,13 @@ def main():
                     break
                 if stream is None:
                     stream = d
-                    trace.append({"kind": "stream", "entries": [{"next": e["next"], "ino": e["ino"], "type": e["type"], "name": e["name"]} for e in d["recs"]],
+                    trace.append({"kind": "stream", "removed": [], "entries": [{"next": e["next"], "ino": e["ino"], "type": e["type"], "name": e["name"]} for e in d["recs"]],
                                   "lstat": lst, "buflen": 0, "cookie": 0, "used": 0, "recs": []})
                     owner.append((j, c, names))
                     if any(e["pad"] != [0, 0, 0] for e in d["recs"]):
                         v.deviation("readdir:padding-not-zero", {"entries": names})
                     continue
-                trace.append({"kind": "call", "entries": [], "lstat": [], "buflen": c["buflen"], "cookie": c["cookie"] % (2 ** 31), "used": d["used"],
+                trace.append({"kind": "callrm" if "removed" in c else "call", "removed": c.get("removed", []), "entries": [], "lstat": [], "buflen": c["buflen"], "cookie": c["cookie"] % (2 ** 31), "used": d["used"],
                               "recs": [{"next": e["next"], "ino": e["ino"], "type": e["type"], "namlen": e["namlen"], "name": e["name"]} for e in d["recs"]]})
                 owner.append((j, c, names))
         tf, of2 = os.path.join(wd, "rd-trace.ndjson"), os.path.join(wd, "rd-out.ndjson")
